@@ -3,6 +3,7 @@ import S2T.Props.C12_Limits
 import S2T.Props.C12_Amplify
 import S2T.Props.C12_Xml
 import S2T.Props.C12_LoopsSrc
+import S2T.Props.C12_Archive
 /-!
 # C12 — extraction cost is bounded by the input; explicit limits hold
 
@@ -30,6 +31,12 @@ Parts:
   leading whitespace, through the chain of parser calls GENERATED from the current source (keywords against the
   installed defusedxml's defaults, `except` handlers, stripped data): text ≤ part size for every part under every
   chain of refusing parsers, every generated stage refuses, unboundedness + witnesses for a chain with one lenient stage.
+
+* `Props/C12_Archive.lean` (namespace `S2T.C12.Archive`): archives whose member NAMES repeat (the size tested and the payload
+  read belong to the same entry iff the payload is fetched through the entry's own handle; by name it is the LAST entry of
+  that name — equal for distinct names, an oversize member otherwise; the read sites of the ZIP / TAR loops are generated)
+  and 7z folders with a coder CHAIN (filter <- LZMA/LZMA2): every stage's output is within `max_output`, hence within what the
+  wanted members need, iff the bound reaches every stage (sites generated); counterexamples for a bound on the returned stage only.
 
 WHAT NO THEOREM HERE SPEAKS ABOUT (run-time quantities, partial by nature): peak RSS and wall time
 themselves, the behaviour of `lzma` / `zlib` / `olefile.get_metadata()` / `pypdf` / `defusedxml` on
